@@ -337,7 +337,7 @@ def check(pid, tier, seed):
         GEN_OF = {"liquid_stake": ["stake"], "liquid_unstake": ["unstake"], "submit_batch": ["submit", "advance"],
                   "withdraw": ["withdraw", "deliver"], "receive_rewards": ["rewards"], "receive_unstaked_tokens": ["deliver"],
                   "recover_pending_ibc_transfers": ["recover", "timeout", "stake"], "resume_contract": ["resume", "unauthorized"],
-                  "circuit_breaker": ["breaker"], "fee_withdraw": ["fee_withdraw"], "update_config": ["update_config"],
+                  "circuit_breaker": ["breaker"], "fee_withdraw": ["fee_withdraw", "rewards", "update_config"], "update_config": ["update_config"],
                   "transfer_ownership": ["ownership"], "accept_ownership": ["ownership", "advance"], "reply": ["stake", "ack"],
                   "sudo": ["ack", "timeout", "stray"]}
         boosted = dict(spec["weights"])
